@@ -88,7 +88,8 @@ pub fn judge(sc: &StreamSc, obs: &Obs, probe_at: Option<usize>) -> (Judgement, O
                     Term::Fail(id2) => {
                         if *p != total || *id != id2 { return Judgement::Violation("c07.stream_error_position", format!("stream failed (id {}) after {} bytes but Stream({}, {}) was reported", id2, total, p, id)); }
                         if e.position != *p || e.span != (*p, *p) { return Judgement::Violation("c07.accessor_mismatch", format!("Stream({}, _) but position()={} span()={}..{}", p, e.position, e.span.0, e.span.1)); }
-                        if m.reject.is_some() { Judgement::Note("stream error reported past a syntax error") } else { Judgement::Pass }
+                        if let Some((_, o, ch)) = m.reject { return Judgement::Violation("c07.error_not_first", format!("Stream({}, {}) reported although the syntax error at offset {} ({:?}) lies strictly before it: the error does not point at the first offending character", p, id, o, ch)); }
+                        Judgement::Pass
                     }
                     _ => Judgement::Violation("c07.stream_error_position", format!("Stream({}, {}) reported but the stream did not fail", p, id)),
                 }
@@ -99,7 +100,8 @@ pub fn judge(sc: &StreamSc, obs: &Obs, probe_at: Option<usize>) -> (Judgement, O
                     Term::IllFormed => {
                         if *p != total { return Judgement::Violation("c07.invalid_utf8_position", format!("first ill-formed sequence starts at byte {} but InvalidUtf8({}) was reported", total, p)); }
                         if e.position != *p || e.span != (*p, *p) { return Judgement::Violation("c07.accessor_mismatch", format!("InvalidUtf8({}) but position()={} span()={}..{}", p, e.position, e.span.0, e.span.1)); }
-                        if m.reject.is_some() { Judgement::Note("UTF-8 error reported past a syntax error") } else { Judgement::Pass }
+                        if let Some((_, o, ch)) = m.reject { return Judgement::Violation("c07.error_not_first", format!("InvalidUtf8({}) reported although the syntax error at offset {} ({:?}) lies strictly before the ill-formed sequence", p, o, ch)); }
+                        Judgement::Pass
                     }
                     _ => Judgement::Violation("c07.invalid_utf8_position", format!("InvalidUtf8({}) reported but the byte input is well-formed UTF-8", p)),
                 }
